@@ -132,7 +132,7 @@ def blocks_between_elevations_partition_the_interval(ctx, n):
 # below elevation 0) makes getBlocksBetweenElevations raise IndexError (allMeshPoints[-1] of an empty list) instead of
 # returning no blocks or failing with its documented ValueError: 2 blocks of 10 cm, getBlocksBetweenElevations(25, 30).
 # While the flag is set the window is assumed to touch the assembly.
-KNOWN_DEFECT_window_without_overlap_raises_index_error = False
+KNOWN_DEFECT_window_without_overlap_raises_index_error = False  # repaired in /repo (fix: 0784b69)
 
 
 @harness("C11", bounds="as above, but the window may reach beyond the assembly: zLower<zUpper anywhere in [-50, H+50]",
@@ -349,7 +349,7 @@ def remesh_maps_parameters_by_kind(ctx, ns, nd, unset):
 # negative the destination gets 0.0, which is none of the source values.  Plain floats: two source blocks of 10 cm with
 # fluxPeak -3 and -2 mapped onto one block of 20 cm -> 0.0 instead of -2.
 # While the flag is set the obligations are required only when the largest substantially overlapped value is >= 0.
-KNOWN_DEFECT_peak_maximum_starts_at_zero = False
+KNOWN_DEFECT_peak_maximum_starts_at_zero = False  # repaired in /repo (fix: ca43f9b)
 _NEG = -1e7         # below every admissible value: neutral element of the maximum
 
 
@@ -821,7 +821,7 @@ KNOWN_DEFECT_resample_sum_inner_bin = False  # recorded in known_findings.jsonl
 # bins read the already trimmed value:  resampleStepwise([0,1,2,3,4], np.array([3.,2,5,3]), [0,2,3.5,4], avg=False) ->
 # [5.0, 6.5, 0.75] (a list of values gives [5.0, 6.5, 1.5]) and the array is left as [3, 2, 5, 0.75].
 # While the flag is set the obligations on numpy values are stated for average mode only.
-KNOWN_DEFECT_resample_sum_modifies_numpy_values = False
+KNOWN_DEFECT_resample_sum_modifies_numpy_values = False  # repaired in /repo (fix: 62c82c8)
 
 # Candidate genuine defect (reported, not repaired): an output bin that starts below the first input point and reaches into
 # the input range is not given its partial overlap (np.digitize gives bin 0, the slice yin[-1:end] is empty or the LAST
@@ -831,7 +831,7 @@ KNOWN_DEFECT_resample_sum_modifies_numpy_values = False
 # A bin that starts below and ends exactly AT the first input point fails the same way (([0,10],[5.],[-5,0,5]) ->
 # ZeroDivisionError).
 # While the flag is set, span='over' assumes that no output bin starts below the first input point and reaches it.
-KNOWN_DEFECT_resample_left_overhang = False
+KNOWN_DEFECT_resample_left_overhang = False  # repaired in /repo (fix: 7005f0d)
 
 
 _INNER = " (bin strictly inside one input bin)"
